@@ -22,7 +22,7 @@ use std::panic::{catch_unwind, AssertUnwindSafe};
 pub const PROP: PropDef = PropDef {
     id: "C03",
     parts,
-    rule: "(urls) scheme {http,https} x authority {host, host:port, IPv4:port, [::1], [fe80::1]:443, user@host, [::1%25eth0]} x path {none, /, /a, /a/b/, /a%20b} x query {none, ?, ?x=1, ?x=1&y=2, ?cup2key=9:ab} x key sets {latest only, +1, +2 historical; ids incl. 2^64-1} x request content {update check, ping, events; 1-2 apps}, each built twice through the real RequestBuilder with the real handler; (histories) every request of histories with an optional completely failed check, 0-2 failed attempts before the answered one within the same check, install with three event reports, reboot-wait ping, restart and a further check, for 3 service URLs; non-trivial = decoration succeeded",
+    rule: "(urls) scheme {http,https} x authority {host, host:port, IPv4:port, [::1], [fe80::1]:443, user@host, [::1%25eth0]} x path {none, /, /a, /a/b/, /a%20b} x query {none, ?, ?x=1, ?x=1&y=2, ?cup2key=9:ab} x key sets {latest only, +1, +2 historical; ids incl. 2^64-1} x request content {update check, ping, events; 1-2 apps}, each built twice through the real RequestBuilder with the real handler; (histories) every request of histories with an optional completely failed check, 0-2 failed attempts before the answered one within the same check, install with three event reports, reboot-wait ping, restart and a further check, for 3 service URLs; (menu histories) every history of 4 (quick) / 5 (thorough) steps over {no-update, install with/without reboot wait and ping, install after failed attempts, transport x3, HTTP 500 x3, unparseable, forged, deferred, restart} with one nonce set per history; non-trivial = decoration succeeded",
     assumptions: &["nonce unpredictability is not observable; only distinctness across all requests of a history (and of all builds of the enumeration) is checked", "http::Uri is the judge of which service URLs are well-formed"],
 };
 
@@ -204,20 +204,30 @@ fn run_hist(ctx: &RunCtx) -> RunOut {
     if kinds.len() < 3 {
         return out.fail("history did not exercise update check, event report and ping", format!("{kinds:?}"));
     }
+    match judge_wire(&log, url) {
+        Ok(()) => out,
+        Err((k, m)) => out.fail(k, m),
+    }
+}
+
+/// Every request of the log is decorated with exactly one fresh cup2key for the latest key id, and
+/// what the installer is handed belongs to the answered request.
+fn judge_wire(log: &[Obs], url: &str) -> Result<(), (String, String)> {
+    let reqs: Vec<&WireReq> = log.iter().filter_map(|o| if let Obs::Req(r) = o { Some(&**r) } else { None }).collect();
     let (prefix, _) = expected_uri(url, 42);
     let mut seen = std::collections::HashSet::new();
     for r in &reqs {
         let nonce = match r.uri.strip_prefix(&prefix) {
             Some(n) if is_hex64_lower(n) => n.to_string(),
             _ => {
-                return out.fail(
+                return Err((
                     format!("{:?} request does not target the service URL with exactly one cup2key parameter", r.kind),
                     format!("wire {:?}, expected {prefix}<64 hex>", r.uri),
-                )
+                ))
             }
         };
         if !seen.insert(nonce.clone()) {
-            return out.fail(format!("nonce reused by a {:?} request", r.kind), format!("req#{}", r.idx));
+            return Err((format!("nonce reused by a {:?} request", r.kind), format!("req#{}", r.idx)));
         }
     }
     // metadata handed to the installer = the attempt whose response is handed over
@@ -229,29 +239,98 @@ fn run_hist(ctx: &RunCtx) -> RunOut {
             });
             let (uc, m) = match (last_uc, meta) {
                 (Some(u), Some(m)) => (u, m),
-                _ => return out.fail("install plan created without request metadata", ""),
+                _ => return Err(("install plan created without request metadata".into(), String::new())),
             };
             if m.0 != uc.body {
-                return out.fail("metadata handed to the installer does not hold the bytes of the answered request", "");
+                return Err(("metadata handed to the installer does not hold the bytes of the answered request".into(), String::new()));
             }
             let c2k = uc.cup2key.clone().unwrap_or_default();
             if format!("{}:{}", m.1, hex::encode(m.2)) != c2k {
-                return out.fail("metadata handed to the installer has another key id / nonce than the answered request", format!("{} vs {c2k}", format!("{}:{}", m.1, hex::encode(m.2))));
+                return Err(("metadata handed to the installer has another key id / nonce than the answered request".into(), format!("{} vs {c2k}", format!("{}:{}", m.1, hex::encode(m.2)))));
             }
             let resp_body = log[..i].iter().rev().find_map(|o| match o {
                 Obs::Resp(idx, HttpAns::Resp(s)) if *idx == uc.idx => Some(s.body.clone()),
                 _ => None,
             });
             if resp_body.as_ref() != Some(bytes) {
-                return out.fail("response bytes handed to the installer differ from the answer", "");
+                return Err(("response bytes handed to the installer differ from the answer".into(), String::new()));
             }
         }
     }
-    out
+    Ok(())
 }
 
-fn parts(_tier: Tier) -> Vec<PartDef> {
+/// Histories drawn step by step from a menu; one nonce set for the whole history (restarts included).
+fn run_menu(ctx: &RunCtx, len: usize) -> RunOut {
+    let url = "http://omaha.example/service/update?x=1";
+    let mut setup = Setup::new(Mode::Start);
+    setup.cup = true;
+    setup.service_url = url.into();
+    let mut h = Hist::new(setup.clone(), Store::default());
+    let mut desc = vec![];
+    for _ in 0..len {
+        let c = choose("step", 9);
+        {
+            let mut k = h.knobs();
+            *k = hist::Knobs::default();
+            match c {
+                0 => k.uc = Uc::NoUpdate,
+                1 => k.uc = Uc::Update,
+                2 => {
+                    k.uc = Uc::Update;
+                    k.uc_fail_first = 1 + choose("failed_attempts", 2);
+                }
+                3 => k.uc = Uc::Transport,
+                4 => k.uc = Uc::Status500,
+                5 => k.uc = Uc::Unparseable,
+                6 => k.uc = Uc::Forged,
+                7 => {
+                    k.uc = Uc::Update;
+                    k.policy = UpdAns::Deferred;
+                }
+                _ => {}
+            }
+            if c == 1 && choose("reboot_wait", 2) == 1 {
+                k.reboot_needed = true;
+            }
+        }
+        desc.push(["no-update", "install", "install after failed attempts", "transport x3", "http 500 x3", "unparseable", "forged", "deferred", "restart"][c]);
+        if c == 8 {
+            h.restart();
+        } else {
+            h.check();
+            if h.in_reboot_wait() {
+                h.ping();
+                h.knobs().reboot_allowed = true;
+                h.reboot_timer();
+            }
+        }
+    }
+    let log = h.log();
+    let n_req = log.iter().filter(|o| matches!(o, Obs::Req(_))).count();
+    let mut out = RunOut::new(format!("reqs{}", n_req.min(12)), n_req > 3, trace::digest(&log));
+    if ctx.want_trace {
+        out.trace = Some(json!({"history": desc, "log": trace::trace_json(&log)}));
+    }
+    if let Some(p) = h.problems.first() {
+        return out.fail(format!("driver problem: {p}"), format!("{desc:?}"));
+    }
+    match judge_wire(&log, url) {
+        Ok(()) => out,
+        Err((k, m)) => out.fail(k, format!("{m}; history {desc:?}")),
+    }
+}
+
+fn parts(tier: Tier) -> Vec<PartDef> {
+    let mlen = tier.pick(4usize, 5usize);
     vec![
+        PartDef::new(
+            "menu-histories",
+            Cfg::new("C03/menu-histories"),
+            json!({"length": mlen, "step_menu": ["no-update check", "installed update (optionally with reboot wait, ping, reboot)", "install after 1-2 failed attempts", "transport failure x3", "HTTP 500 x3", "unparseable answer", "forged answer", "deferred by policy", "restart"],
+                   "oracle": "every request decorated with one fresh cup2key (nonces distinct over the whole history, restarts included); metadata and bytes handed to the installer belong to the answered request", "exploration": "full product"}),
+            move |ctx| run_menu(ctx, mlen),
+        ),
         PartDef::new(
             "url-grammar",
             Cfg::new("C03/url-grammar"),
